@@ -43,6 +43,10 @@ type PolicySpec struct {
 	// The others run in FIFO or (Shuffle) drawn order. A single-delay sweep over the points a run
 	// actually passes, where starve needs to guess a site by name.
 	HoldAt []int64 `json:"hold_at,omitempty"`
+	// HoldState > 0: additionally hold the goroutine that makes the HoldState-th arrival, counted over the
+	// run, at a synchronisation point right after it wrote a step state (instrumentation rule T8): the
+	// claim "I am waiting / finished" is made, what justifies it is delayed.
+	HoldState int `json:"hold_state,omitempty"`
 }
 
 var timeSteps = []time.Duration{100 * time.Microsecond, time.Millisecond, 5 * time.Millisecond, 20 * time.Millisecond, 100 * time.Millisecond, time.Second, 10 * time.Second}
@@ -73,21 +77,23 @@ func NewPolicy(sp PolicySpec) Policy {
 		b.windows = map[string]time.Duration{}
 	case "holdat":
 		b.held = map[string]time.Duration{}
+		b.seenState = map[string]bool{}
 	}
 	return b
 }
 
 type basePolicy struct {
-	held    map[string]time.Duration // holdat: goroutine name -> start of its hold
-	holdIdx int
-	sp      PolicySpec
-	rng     *rand.Rand
-	prio    map[string]uint64
-	low     uint64
-	change  []int64
-	windows map[string]time.Duration // victim key -> window start
-	started bool
-	t0      time.Duration
+	held      map[string]time.Duration // holdat: goroutine name -> start of its hold
+	holdIdx   int
+	seenState map[string]bool // holdat/HoldState: arrivals after a state write already counted
+	sp        PolicySpec
+	rng       *rand.Rand
+	prio      map[string]uint64
+	low       uint64
+	change    []int64
+	windows   map[string]time.Duration // victim key -> window start
+	started   bool
+	t0        time.Duration
 }
 
 // fairPick: oldest non-lazy goroutine; a lazy one only when nothing else can run.
@@ -171,6 +177,23 @@ func (b *basePolicy) Decide(st *State) (int, time.Duration) {
 		for b.holdIdx < len(b.sp.HoldAt) && st.Seq >= b.sp.HoldAt[b.holdIdx] {
 			b.held[st.Enabled[cand[b.rng.Intn(len(cand))]].g.Name] = st.Now
 			b.holdIdx++
+		}
+		if b.sp.HoldState > 0 {
+			for _, list := range [][]*parked{st.Enabled, st.Blocked} {
+				for _, p := range list {
+					if !p.afterState {
+						continue
+					}
+					k := p.g.Name + "#" + itoa(p.order)
+					if b.seenState[k] {
+						continue
+					}
+					b.seenState[k] = true
+					if len(b.seenState) == b.sp.HoldState {
+						b.held[p.g.Name] = st.Now
+					}
+				}
+			}
 		}
 		w := time.Duration(b.sp.WindowUS) * time.Microsecond
 		var free, kept []int
